@@ -1,0 +1,109 @@
+//go:build verif
+
+package fs
+
+import (
+	"encoding/hex"
+	"fmt"
+	"sort"
+	"strings"
+)
+
+// VerifNode is a neutral copy of one node of an in-memory file system (memfs or tarfs),
+// used by the verification harness to observe the whole pointer graph.
+type VerifNode struct {
+	ID        int  // numbered in order of first visit (sorted depth-first)
+	Seen      bool // this node was already printed under another name (hard link)
+	Dir       bool
+	Mode      uint32
+	UID, GID  int
+	MTime     int64
+	LinkCount int
+	Data      []byte
+	Target    string
+	Major     uint32
+	Minor     uint32
+	Xattrs    map[string][]byte
+	Names     []string
+	Kids      []*VerifNode
+	// tarfs only
+	HasTe      bool
+	TeSize     int64
+	TeContent  []byte
+	TeChecksum []byte
+	TePkg      string
+	Hardlinks  map[string]string
+}
+
+func verifKV(m map[string][]byte) string {
+	keys := make([]string, 0, len(m))
+	for k := range m {
+		keys = append(keys, k)
+	}
+	sort.Strings(keys)
+	parts := make([]string, 0, len(keys))
+	for _, k := range keys {
+		parts = append(parts, hex.EncodeToString([]byte(k))+"="+hex.EncodeToString(m[k]))
+	}
+	return strings.Join(parts, "+")
+}
+
+// VerifFormat prints the canonical dump the Lean model prints for the same graph.
+func (n *VerifNode) VerifFormat() string {
+	var recs []string
+	var rec func(path string, n *VerifNode)
+	rec = func(path string, n *VerifNode) {
+		if n.Seen {
+			recs = append(recs, fmt.Sprintf("%s:%d", hex.EncodeToString([]byte(path)), n.ID))
+			return
+		}
+		d := "F"
+		if n.Dir {
+			d = "D"
+		}
+		te := "-"
+		if n.HasTe {
+			te = fmt.Sprintf("%d/%s/%s/%s", n.TeSize, hex.EncodeToString(n.TeContent), hex.EncodeToString(n.TeChecksum), hex.EncodeToString([]byte(n.TePkg)))
+		}
+		hl := map[string][]byte{}
+		for k, v := range n.Hardlinks {
+			hl[k] = []byte(v)
+		}
+		recs = append(recs, fmt.Sprintf("%s:%d:%s,%d,%d,%d,%d,%d,%s,%s,%d,%d,%s,%s,%s", hex.EncodeToString([]byte(path)), n.ID,
+			d, n.Mode, n.UID, n.GID, n.MTime, n.LinkCount, hex.EncodeToString(n.Data), hex.EncodeToString([]byte(n.Target)),
+			n.Major, n.Minor, verifKV(n.Xattrs), te, verifKV(hl)))
+		for i, k := range n.Kids {
+			rec(path+"/"+n.Names[i], k)
+		}
+	}
+	rec("", n)
+	return strings.Join(recs, ";")
+}
+
+// VerifDump copies the node graph of a memfs (nil for other implementations).
+func VerifDump(f FullFS) *VerifNode {
+	m, ok := f.(*memFS)
+	if !ok {
+		return nil
+	}
+	seen := map[*node]int{}
+	var rec func(n *node) *VerifNode
+	rec = func(n *node) *VerifNode {
+		if id, ok := seen[n]; ok {
+			return &VerifNode{ID: id, Seen: true}
+		}
+		id := len(seen)
+		seen[n] = id
+		v := &VerifNode{ID: id, Dir: n.dir, Mode: uint32(n.mode), UID: n.uid, GID: n.gid, MTime: n.modTime.Unix(),
+			LinkCount: n.linkCount, Data: n.data, Target: n.linkTarget, Major: n.major, Minor: n.minor, Xattrs: n.xattrs}
+		for name := range n.children {
+			v.Names = append(v.Names, name)
+		}
+		sort.Strings(v.Names)
+		for _, name := range v.Names {
+			v.Kids = append(v.Kids, rec(n.children[name]))
+		}
+		return v
+	}
+	return rec(m.tree)
+}
